@@ -655,4 +655,6 @@ package vm
 //@   loop 1 invariant @handlers ph.Catch != nil && ph.Croak != nil && ph.Load != nil && ph.Reload != nil && ph.Map != nil && ph.Move != nil && ph.Halt != nil
 //@     && ph.InCmp != nil && ph.MOut != nil && ph.MSink != nil && ph.MNext != nil && ph.MPrev != nil
 //@   loop 1 invariant @buf sameBacking(b, old(b)) || b == nil || len(b) == 0
+// the loop stops without an error only when the input is used up
+//@   loop 1 invariant[C15] @exhausted !running ==> len(b) == 0
 //@   loop 1 step[C15] @complete okInstr(iterold(b)) && len(b) == iterold(len(b)) - iterold(instrLen(b)) && (len(b) > 0 ==> offset(b) == iterold(offset(b)) + iterold(instrLen(b)) && sameBacking(b, iterold(b)))
